@@ -3,4 +3,7 @@ CONSTANTS N = 3
           Names = {"", "a"}
           Devs = {"Dev_C22_IndirectRootReported"}
           InitDags <- Dags3
+          MaxMiss = 1
+          ModeSet = {1, 2, 4}
+          FaultSet = {"none", "cancelFetch"}
 INVARIANTS TypeOK RecursiveSupersedesDirect RepinReplacesName IndirectDef QueriesAgree FailedCallNoChange
